@@ -122,6 +122,13 @@ class KAT:
                 t = self.index_axes[unparse(base.value)]
                 return Seq((Ext(t[0]), Ext(t[1]))) if 0 in t and 1 in t else None
             return None
+        if unparse(base) in self.index_axes and not (isinstance(base, ast.Attribute) and base.attr == "shape"):
+            sl = e.slice
+            table = self.index_axes[unparse(base)]
+            if isinstance(sl, ast.Constant) and isinstance(sl.value, int) and sl.value in table:
+                return Ext(table[sl.value])
+            if isinstance(sl, ast.UnaryOp) and isinstance(sl.op, ast.USub) and isinstance(sl.operand, ast.Constant) and -sl.operand.value in table:
+                return Ext(table[-sl.operand.value])
         v = self.ev(base)
         sl = e.slice
         if isinstance(v, Seq):
@@ -151,9 +158,31 @@ class KAT:
             return v
         return v if isinstance(v, (Ext, Num)) else None
 
+    def _product_factors(self, e: ast.AST) -> list[ast.AST]:
+        if isinstance(e, ast.BinOp) and isinstance(e.op, (ast.Mult, ast.Div)):
+            return self._product_factors(e.left) + self._product_factors(e.right)
+        return [e]
+
     def _binop(self, e: ast.BinOp):
-        l, r = self.ev(e.left), self.ev(e.right)
         op = type(e.op)
+        if op in (ast.Mult, ast.Div):
+            # a product is judged as a whole, whatever its association: u * dir * (extent - 1)
+            facs = self._product_factors(e)
+            if len(facs) > 2:
+                vals = [self.ev(f) for f in facs]
+                comps = [v for v in vals if isinstance(v, Comp)]
+                exts = [v for v in vals if isinstance(v, Ext)]
+                for c in comps:
+                    for x in exts:
+                        if c.axis != x.axis:
+                            self.clash(e, f"`{unparse(e)[:80]}` scales a {c.axis}-axis quantity by the {x.axis} extent")
+                            return None
+                if any(v is None for v in vals):
+                    pairs = [v for v in vals if isinstance(v, Pair)]
+                    return pairs[0] if pairs else None
+        l, r = self.ev(e.left), self.ev(e.right)
+        if op is ast.Mult and ((isinstance(l, Comp) and r is None) or (isinstance(r, Comp) and l is None)):
+            return None  # multiplied by an unknown factor (a direction cosine …): no longer an axis quantity
         for a, b in ((l, r), (r, l)):
             if isinstance(a, Comp) and isinstance(b, Ext) and a.axis != b.axis:
                 self.clash(e, f"`{unparse(e)[:70]}` combines a {a.axis}-axis quantity with the {b.axis} extent")
@@ -200,10 +229,19 @@ class KAT:
             if isinstance(a, Ext):
                 return Comp(a.axis)
             return None
-        if short == "linspace" and len(args) >= 3:
-            a = self.ev(args[2])
-            if isinstance(a, Ext):
-                return Comp(a.axis)
+        if short == "linspace" and len(args) >= 2:
+            ends = [self.ev(args[0]), self.ev(args[1])]
+            cnt = self.ev(args[2]) if len(args) >= 3 else (self.ev(kwarg(e, "num")) if kwarg(e, "num") is not None else None)
+            axes = {v.axis for v in ends if isinstance(v, Ext)}
+            if len(axes) == 2:
+                self.clash(e, f"`{unparse(e)[:70]}` runs between extents of different axes")
+                return None
+            if isinstance(cnt, Ext):
+                if axes and cnt.axis not in axes:
+                    self.clash(e, f"`{unparse(e)[:70]}` spans the {next(iter(axes))} extent with a {cnt.axis}-extent number of samples")
+                return Comp(cnt.axis)
+            if axes:
+                return Comp(next(iter(axes)))
             return None
         if short in ("ifftshift", "fftshift", "float", "to", "clone", "detach", "astype", "as_tensor", "asarray", "tensor",
                      "abs", "round", "floor", "ceil", "long", "int", "contiguous", "cpu", "numpy", "copy", "array", "squeeze",
